@@ -1102,3 +1102,6 @@ def enumerate_cases(tier):
         cases.append({"cls": cname, "params": _e(ENUM_PARAMS[cname][1]), "bad_stream": False, "scen": "wrapper",
                       "stream": mt, "n": 3, "wrapper": [CLASSES.index(cname), 1]})
     return cases
+
+
+RULE = RULE + " " + 'Later additions: twin scenario - the used stream is seeded again (set_seed with its own seed, reset()) and the draws start over (Normal / LogNormal after an even number of draws only: the polar method holds a spare variate).'
